@@ -257,7 +257,7 @@ impl Family for Aftermath {
             if o.res.is_ok() {
                 return Err(Violation::new(key("writer-error-swallowed"), format!("{}: a writer call failed, the shim returned the error, run_on returned Ok", what)));
             }
-            return match decode_all(&o.sim.out, &conv, &s.last_seq, 1, true) {
+            return match decode_all(delivered(&o), &conv, &s.last_seq, 1, true) {
                 Ok(_) => Ok(()),
                 Err(e) if e.contains("server output ends where") => Ok(()),
                 Err(e) => Err(Violation::new(key("refused-but-emitted"), format!("{}: {}", what, e))),
@@ -267,7 +267,7 @@ impl Family for Aftermath {
         if !o.res.is_ok() {
             return Err(Violation::new(key("result-not-ok"), format!("{}: every writer call after the refusal succeeded, yet run_on returned {}", what, o.res.short())));
         }
-        let d = decode_all(&o.sim.out, &conv, &s.last_seq, conv.cmds.len(), false).map_err(|e| Violation::new(key("reply-decode"), format!("{}: {}", what, e)))?;
+        let d = decode_all(delivered(&o), &conv, &s.last_seq, conv.cmds.len(), false).map_err(|e| Violation::new(key("reply-decode"), format!("{}: {}", what, e)))?;
         // reply to the dirtying command
         let cell = |v: i32| if c.text_mode { Cell::Text(v.to_string().into_bytes()) } else { Cell::Bin(BinVal::Int(v as i64)) };
         let mut want_rows: Vec<Vec<Cell>> = (0..c.pre_rows).map(|r| (0..c.n1).map(|i| cell(100 * (r as i32 + 1) + i as i32)).collect()).collect();
